@@ -10,6 +10,7 @@ import (
 	"go/token"
 	"go/types"
 	"sort"
+	"sync"
 
 	"golang.org/x/tools/go/ssa"
 )
@@ -21,8 +22,11 @@ type loopInfo struct {
 }
 
 var loopCache = map[*ssa.Function][]*loopInfo{}
+var loopCacheMu sync.Mutex
 
 func (x *Exec) loopsOf(fn *ssa.Function) []*loopInfo {
+	loopCacheMu.Lock()
+	defer loopCacheMu.Unlock()
 	if l, ok := loopCache[fn]; ok {
 		return l
 	}
